@@ -239,6 +239,9 @@ def corrupt(pid, tr, rng):
             if rec is not None and not rec["cached"] and not e["c"][1]:
                 e["fx"] = []        # an uncached cells that was not re-executed by the call
                 return t, "C09.UncachedReexecuted"
+        if pid in ("C03", "C10", "C12") and any(x.get("res") == "rejected" and x.get("errtype") == "ValueError"
+                                               for x in evs[:i + 1]):
+            continue        # (a half-updated model -- KF4 -- stops the judgement of the rest of its trace)
         if pid in ("C03", "C10", "C11", "C12") and "defs" in post and e["op"] != "call":
             pd = post["defs"]
             if pid == "C03":
